@@ -240,6 +240,55 @@ GHOST = [("rho_on", Maker(lambda ex, st, n: VBool(RHO.on), desc="ghost rho != No
 
 
 # ------------------------------------------------------------------ executor --
+def exit_only_names(body):
+    """Names whose every binding inside the loop body `body` is a plain `name = expr` (or annotated) statement that is followed,
+    in the SAME statement list, by an unconditional `break` / `return` / `raise` with only simple statements in between.
+    Conservative: no `try` anywhere in the body (an exception after the assignment could be caught and the loop resumed), the
+    assignment not inside a nested loop / function / class / comprehension, no other kind of store to the name."""
+    if any(isinstance(n, (ast.Try, getattr(ast, "TryStar", ast.Try))) for b in body for n in ast.walk(b)):
+        return set()
+    good, bad = set(), set()
+    simple = (ast.Assign, ast.AnnAssign, ast.AugAssign, ast.Expr, ast.Pass)
+
+    def block(stmts, nested):
+        for k, s in enumerate(stmts):
+            tgt = None
+            if isinstance(s, ast.Assign) and len(s.targets) == 1 and isinstance(s.targets[0], ast.Name):
+                tgt = s.targets[0].id
+            elif isinstance(s, ast.AnnAssign) and s.value is not None and isinstance(s.target, ast.Name):
+                tgt = s.target.id
+            if tgt is not None:
+                rest = stmts[k + 1:]
+                j = next((x for x, r in enumerate(rest) if not isinstance(r, simple)), None)
+                ok = (not nested and j is not None and isinstance(rest[j], (ast.Break, ast.Return, ast.Raise))
+                      and not any(isinstance(n, ast.Name) and isinstance(n.ctx, ast.Store) and n.id == tgt
+                                  for r in rest[:j] for n in ast.walk(r)))
+                (good if ok else bad).add(tgt)
+                for n in ast.walk(s.value):
+                    if isinstance(n, ast.Name) and isinstance(n.ctx, ast.Store):
+                        bad.add(n.id)                      # walrus inside the right-hand side
+                continue
+            if isinstance(s, (ast.If,)):
+                for n in ast.walk(s.test):
+                    if isinstance(n, ast.Name) and isinstance(n.ctx, ast.Store):
+                        bad.add(n.id)
+                block(s.body, nested)
+                block(s.orelse, nested)
+                continue
+            if isinstance(s, (ast.For, ast.While, ast.AsyncFor)):
+                for n in ast.walk(s.target if not isinstance(s, ast.While) else s.test):
+                    if isinstance(n, ast.Name) and isinstance(n.ctx, ast.Store):
+                        bad.add(n.id)
+                block(s.body, True)
+                block(s.orelse, True)
+                continue
+            for n in ast.walk(s):                          # anything else (with, match, def, augmented assignment, del ...): every store is "other"
+                if isinstance(n, ast.Name) and isinstance(n.ctx, (ast.Store, ast.Del)):
+                    bad.add(n.id)
+    block(list(body), False)
+    return good - bad
+
+
 class C17Executor(Executor):
     """Adds: open lists (symbolic-length prefix + appended tail, top materialised
     lazily), super().__init__ of html.parser.HTMLParser (assumed to touch only
@@ -611,6 +660,17 @@ class C17Executor(Executor):
     def __init__(self, *a, opaque_str=False, **kw):
         super().__init__(*a, **kw)
         self.opaque_str = opaque_str        # only for the contract that asks for it (EXECUTOR_KW); other users are unaffected
+
+    def havoc_loop_state(self, st, body, spec, extra_names=()):
+        """Round 8: a local that the loop body assigns ONLY on a path that leaves the loop at once (`found = f(x)` ... `break` /
+        `return` / `raise` later in the same statement list) still has its entry value at every loop head and at the normal
+        exit -- no iteration that assigned it ever came back.  Keeping the entry binding (instead of the havocked one) lets the
+        single-exit form `found = None; for ..: if ..: found = ..; break; return found` prove like the early-return form."""
+        keep = {n: st.lookup(n) for n in exit_only_names(body) if n not in set(extra_names)}
+        super().havoc_loop_state(st, body, spec, extra_names)
+        for n, v in keep.items():
+            if v is not None:
+                st.bind(n, v)
 
     def b_isinstance(self, st, args, kwargs, node):
         # round 7: an abstract byte string is a `bytes` (the engine answers an unconstrained Bool for abstract values)
